@@ -142,16 +142,22 @@ def oracle(cfg, events, toks, notes):
                 seen_tok[tok] = fl
                 if snd != "?":
                     delivered.setdefault(int(snd), []).append((tok, fl))
-        # an fd-carrying message that cannot be delivered is answered with an error, not dropped: a write that is one whole,
-        # valid message to a live connection without descriptor passing, from a sender that stays connected
+        # a message does not vanish: a write that is one whole, valid message with a destination, from a sender that stays
+        # connected, has an outcome in this step (delivery, error reply or driver reply); if it carries descriptors for a
+        # connection that cannot receive them, the outcome is an error
         if e[0] == "W":
             _, c, ps, fl = e.split(".")
             if ps.startswith("H:") and "," not in ps and int(c) in live:
                 d = fds_msg.parse_desc(ps)
-                if (int(ps.split(":")[8]) == d["len"] and d["fixed_ok"] and d["valid"] and d["nfds"] > 0 and d["dest"][0] == "u"
-                        and d["dest"] != "u" + c and int(d["dest"][1:]) in live and not neg.get(int(d["dest"][1:]), True)):
-                    want = ["%s:E.NotSupported.%d" % (c, d["token"]), "%s:E.AccessDenied.%d" % (c, d["token"])]
-                    if not any(w in outs.split("+") for w in want):
+                if int(ps.split(":")[8]) == d["len"] and d["fixed_ok"] and d["valid"] and d["dest"] != "b":
+                    items = [] if outs == "-" else outs.split("+")
+                    mine = [o for o in items if o.split(":", 1)[1].split(".")[0] in ("M", "E", "D")
+                            and o.split(":", 1)[1].split(".")[{"M": 2, "E": 2, "D": 1}[o.split(":", 1)[1].split(".")[0]]] == str(d["token"])]
+                    if not mine:
+                        bad.append((k, "message %d was neither delivered nor answered, and its sender was not disconnected" % d["token"]))
+                    elif (d["nfds"] > 0 and d["dest"][0] == "u" and d["dest"] != "u" + c and int(d["dest"][1:]) in live
+                          and not neg.get(int(d["dest"][1:]), True)
+                          and not any(o in ("%s:E.NotSupported.%d" % (c, d["token"]), "%s:E.AccessDenied.%d" % (c, d["token"])) for o in items)):
                         bad.append((k, "message %d with descriptors for connection %s, which cannot receive them, was neither refused "
                                        "with an error nor was its sender disconnected" % (d["token"], d["dest"][1:])))
         nneg = len([c for c in live if neg.get(c)])
@@ -301,4 +307,57 @@ def lib_oracle(cfg, events, toks):
             got.extend(fl)
     if len(set(got)) != len(got) or not is_subseq(got, sent.get(0, [])):
         bad.append((len(toks) - 1, "descriptors handed to the application out of order, twice, or not sent by the peer: %s vs sent %s" % (got, sent.get(0))))
+    return bad
+
+
+# ------------------------------------------------------------------ message API (harness/c/fds_h.c `api`, model ml `api`)
+def api_oracle(ops, toks):
+    """C15 on the library's message API, read on what libdbus was observed to do: a message holds one descriptor per
+    successful append, for the appended open files in order (copies: the same files); reading hands out descriptors for
+    those files; the process holds exactly the descriptors of the live messages; nothing is left after the last unref"""
+    bad = []
+    files = {}       # handle -> list of file ids
+    appfile = []     # file id of every descriptor the application acquired, in order
+    nopen = 0
+    for k, (op, t) in enumerate(zip(ops, toks)):
+        if "/" not in t:
+            bad.append((k, "no result for %s: %s" % (op, t)))
+            break
+        res, held = t.rsplit("/", 1)
+        f = op.split(".")
+        if f[0] == "O":
+            nopen += 1
+            appfile.append(str(nopen))
+        elif f[0] == "N":
+            files[f[1]] = []
+        elif f[0] == "A":
+            if res == "1":
+                files[f[1]].append(appfile[int(f[2])])
+            elif f[3] == "1":
+                bad.append((k, "append_basic failed although the descriptor could be duplicated"))
+        elif f[0] == "C":
+            if res == "1":
+                files[f[2]] = list(files[f[1]])
+        elif f[0] == "G":
+            if res != "-":
+                if res != files[f[1]][int(f[2])]:
+                    bad.append((k, "get_basic returned a descriptor for file %s, the message holds %s there" % (res, files[f[1]][int(f[2])])))
+                appfile.append(res)
+        elif f[0] == "R":
+            if res not in ("-", "."):
+                got = res.split(",")
+                if got != files[f[1]][:int(f[2])]:
+                    bad.append((k, "get_args handed out descriptors for files %s, the message holds %s" % (got, files[f[1]][:int(f[2])])))
+                appfile.extend(got)
+        elif f[0] == "V":
+            want = ",".join(files[f[1]]) or "-"
+            if res != want:
+                bad.append((k, "message %s holds descriptors for files %s at its last unref, appended were %s" % (f[1], res, want)))
+            del files[f[1]]
+        expect = sum(len(v) for v in files.values())
+        if int(held) != expect:
+            bad.append((k, "after %s the library holds %s descriptors, its live messages account for %d" % (op, held, expect)))
+            break
+    if toks and toks[-1].startswith("end/") and toks[-1] != "end/0":
+        bad.append((len(ops), "after every message was released the process has %s descriptors more than before" % toks[-1][4:]))
     return bad
